@@ -428,11 +428,16 @@ fn run_parser_cmd(args: &[String]) -> i32 {
                 for (i, beh) in behs.iter().enumerate().filter(|(i, _)| i % THREADS == t) {
                     for pr in Proto::all() {
                         let slow = pr.public && (pr.v == 1 || pr.v == 3);
-                        let full = pr.v == 4 || thorough;
-                        if !full && (i % if slow { 16 } else { 6 } != 0) {
-                            continue;
-                        }
-                        if slow && thorough && i % 4 != 0 {
+                        // v4.local / v4.public carry every history; the other six protocols (same parser
+                        // code, different core call) a sample
+                        let stride = match (pr.v == 4, thorough, slow) {
+                            (true, _, _) => 1,
+                            (false, true, false) => 3,
+                            (false, true, true) => 12,
+                            (false, false, false) => 6,
+                            (false, false, true) => 16,
+                        };
+                        if i % stride != 0 {
                             continue;
                         }
                         let inst = parser_run::make_pinst(&mut r, i + pr.v as usize * 3 + pr.public as usize);
